@@ -309,6 +309,16 @@ pub(crate) struct Transports {
 }
 
 impl Transports {
+    #[cfg(feature = "ezk-verif")]
+    pub(crate) fn verif_len(&self) -> usize {
+        self.transports.lock().len()
+    }
+
+    #[cfg(feature = "ezk-verif")]
+    pub(crate) fn verif_stun_pending(&self) -> usize {
+        self.stun.verif_pending()
+    }
+
     async fn resolve_host_port(&self, host: &Host, port: u16) -> io::Result<Vec<ServerEntry>> {
         match host {
             Host::IP6(ip) => Ok(vec![ServerEntry::from((*ip, port))]),
